@@ -75,3 +75,6 @@ void __cxa_end_catch(void) {}
 void __cxa_rethrow(void) { __CPROVER_assume(0); }
 #endif
 void v_throw_std(u32 kind) { __CPROVER_assume(0); }   /* std::__throw_* without --eh: the path ends (stated) */
+/* glibc's flag read by libstdc++'s shared_ptr refcount dispatch (__is_single_threaded): harnesses are single-threaded; without a
+ * definition CBMC treats the extern as nondet and forks on every refcount operation (both branches are equivalent after -loweratomic) */
+u8 __libc_single_threaded = 1;
